@@ -449,13 +449,21 @@ func init() {
 		return nil
 	})
 	externEffects["go/ast.Inspect"] = "closure"
-	reg("(*go/types.object).Type", "object.Type(): deterministic observer; for a *types.Func the result is a non-nil *types.Signature", func(fv *FuncVerifier, st *State, env *Env, c *CallCtx) []Term {
-		r := fv.uf("ext_gotypes_object_Type", SRef, "", c.recv)
-		if c.recvType != nil && types.TypeString(c.recvType, nil) == "*go/types.Func" {
-			st.Assume(And(Not(eqT(r, Null)), eqT(App(SInt, "dyn", r), fv.w.Tag("*go/types.Signature"))))
+	// go/types objects: the interface method (types.Object).M and the promoted concrete method (*types.object).M are
+	// the same observer
+	for _, m := range []string{"Name", "Parent", "Pkg", "Pos", "Type", "Exported", "Id", "String"} {
+		m := m
+		h := func(fv *FuncVerifier, st *State, env *Env, c *CallCtx) []Term {
+			rs := fv.sortOf(c.sig.Results().At(0).Type())
+			r := fv.uf("gotypes_obj_"+m, rs, "", c.recv)
+			if m == "Type" && c.recvType != nil && types.TypeString(c.recvType, nil) == "*go/types.Func" && !strings.Contains(r.S, "$") {
+				st.Assume(And(Not(eqT(r, Null)), eqT(App(SInt, "dyn", r), fv.w.Tag("*go/types.Signature"))))
+			}
+			return []Term{r}
 		}
-		return []Term{r}
-	})
+		reg("(*go/types.object)."+m, "types.Object."+m+"(): deterministic observer of a type-checker object (for a *types.Func, Type() is a non-nil *types.Signature)", h)
+		reg("(go/types.Object)."+m, "types.Object."+m+"(): deterministic observer of a type-checker object", h)
+	}
 	// ---- sync.Map: ghost insertion lists ----
 	reg("(*sync.Map).Store", "sync.Map.Store(k, v): records the pair (modelled as an append: callers store each key once — stated as a precondition where used)", func(fv *FuncVerifier, st *State, env *Env, c *CallCtx) []Term {
 		sr := fv.w.SeqSort(SRef)
@@ -466,6 +474,15 @@ func init() {
 		return nil
 	})
 	externEffects["(*sync.Map).Store"] = "syncmap"
+	reg("github.com/octohelm/x/ptr.Ptr", "ptr.Ptr(v): a fresh pointer whose target holds v", func(fv *FuncVerifier, st *State, env *Env, c *CallCtx) []Term {
+		r := fv.alloc(st, c.sig.Results().At(0).Type(), "ptr")
+		s := c.args[0].Sort
+		if fv.w.IsStruct(s) {
+			return []Term{r}
+		}
+		fv.writeField(st, r, "$deref:"+string(s), s, c.args[0])
+		return []Term{r}
+	})
 	// ---- reflect ----
 	reg("reflect.New", "reflect.New(T): a Value holding a FRESH non-nil pointer (to a zero T)", func(fv *FuncVerifier, st *State, env *Env, c *CallCtx) []Term {
 		p := fv.fresh("reflnew", SRef)
@@ -476,8 +493,20 @@ func init() {
 		v := fv.fresh("reflval", SRef)
 		fv.w.UFun("rv_iface", []Sort{SRef}, SRef, "")
 		st.Assume(eqT(App(SRef, "rv_iface", v), p))
+		// ghost: the new object holds the zero value of its type until something is stored into it through reflection
+		z := fv.heapGet(st, "$ghost:reflzero", "(Array Ref Bool)")
+		st.heap["$ghost:reflzero"] = App(z.Sort, "store", z, p, True)
 		return []Term{v}
 	})
+	for _, m := range []string{"Set", "SetInt", "SetUint", "SetFloat", "SetString", "SetBool", "SetBytes", "SetMapIndex", "SetLen", "SetCap", "SetPointer", "SetZero", "SetComplex", "SetIterKey", "SetIterValue"} {
+		m := m
+		reg("(reflect.Value)."+m, "reflect.Value."+m+": stores through reflection: no object is known to hold its zero value afterwards (ghost), other effects not modelled", func(fv *FuncVerifier, st *State, env *Env, c *CallCtx) []Term {
+			st.heap["$ghost:reflzero"] = fv.fresh("reflzero", "(Array Ref Bool)")
+			fv.nondet = append(fv.nondet, "reflect store")
+			return nil
+		})
+		externEffects["(reflect.Value)."+m] = "fx"
+	}
 	reg("(reflect.Value).Interface", "Value.Interface(): deterministic; for reflect.New results the fresh pointer", func(fv *FuncVerifier, st *State, env *Env, c *CallCtx) []Term {
 		fv.w.UFun("rv_iface", []Sort{SRef}, SRef, "")
 		return []Term{App(SRef, "rv_iface", c.recv)}
